@@ -1089,7 +1089,7 @@ class XmlFile(SimpleCorr):
         "C05 writer direction uses Python's expat (xml.etree) as the independent XML parser and tools/xmlcheck.py as the layout checker written from docs/xml.md",
     ]
     STREAMS_QUICK = [("dom", "d", 1500), ("unknown", "k", 500), ("opts", "o", 400), ("deep", "p", 40), ("illegal", "i", 150),
-                     ("uid", "u", 150), ("mut", "m", 700), ("hand", "h", 46), ("foreign", "f", 600), ("mig", "g", 600)]
+                     ("uid", "u", 150), ("bin", "b", 500), ("mut", "m", 700), ("hand", "h", 46), ("foreign", "f", 600), ("mig", "g", 600)]
 
     def gen_cmds(self, seed, tier):
         mul = 1 if tier == "quick" else 12
@@ -1114,6 +1114,15 @@ class XmlFile(SimpleCorr):
             for key, msg in xmlcheck.check(bytes.fromhex("" if h == "-" else h), case):
                 orc.append("%s C05 %s %s" % (cid, key, msg.replace("\n", " ")[:400]))
         st["c05_writer_documents_checked_with_expat"] = nchk
+        # ... and the decoder written from docs/xml.md (Spec/XmlSpec.v, extracted) on the same documents
+        nspec = 0
+        for cid, lines in vlib.read_blocks(os.path.join(d, tag + ".model.spec")):
+            for l in lines:
+                if l.startswith("SPEC OK"):
+                    nspec += 1
+                elif l.startswith("SPEC DIFF"):
+                    orc.append("%s C05 spec-decoder %s" % (cid, l[10:]))
+        st["c05_writer_documents_decoded_by_xspec"] = nspec
         # the channel model is part of the tie: validate it in the same run
         if tag == "main":
             st["xmlchannel"] = self.channel_run(d)
@@ -1226,3 +1235,137 @@ class XmlFile(SimpleCorr):
 
 for _p in ("C02", "C05"):
     REGISTRY[_p] = XmlFile()
+
+
+# =====================================================================================
+# C01 / C07 / C08: whole-file correspondence of rbx_binary (kind binfile) + implementation oracles;
+# BinBytes: outcome-class correspondence on arbitrary bytes (kind binbytes; a stage of C13, not registered here)
+# =====================================================================================
+def _forest_nodes(lines):
+    """split a forest case into (head lines, [node blocks], tail lines)"""
+    head, nodes, tail, cur = [], [], [], None
+    for l in lines:
+        if l.startswith("node "):
+            cur = [l]; nodes.append(cur)
+        elif l.startswith("prop ") and cur is not None:
+            cur.append(l)
+        elif l.startswith("roots"):
+            tail.append(l); cur = None
+        else:
+            (head if not nodes else tail).append(l)
+    return head, nodes, tail
+
+
+class BinFile(SimpleCorr):
+    kind = "binfile"
+    model_args = ["real"]
+    rule = ("DOM cases (notes/forest-format.md) from VERIF_SEED: depth-, fan-out- and randomly attached trees of 1-70 instances, 70 percent database "
+            "classes (weighted to classes with aliases / migrations / SerializesAs), 30 percent unknown classes, property sets drawn per class from "
+            "the database with canonical/alias/legacy spellings chosen per instance plus properties unknown to the database, values from the "
+            "boundary pools of val.rs (NaN payloads, subnormals, MIN/MAX, non-UTF-8 and 70 kB blobs, all 24 rotations and neighbours), planted Refs "
+            "inside/outside the written set, SharedStrings, multi-root selections; a fifth of the cases are <= 4 same-class siblings (C08). Each case is "
+            "serialized by rbx_binary with None/LZ4/Zstd and read back; the extracted Coq model must produce the identical file bytes (None), identical "
+            "de-framed chunk payloads (LZ4/Zstd) and the identical decoded DOM. Hash iteration orders, colour quantisation and blake3 hashes are "
+            "observed on the implementation and handed to the model as parameters. non-trivial = two instances of one class, or two siblings, or a "
+            "Ref / SharedString; distinct by case text")
+    assumptions = ["the Coq model of rbx_binary is hand-written; it is tied to the crate by this byte-exact differential run only",
+                   "lz4 / zstd / blake3 are not modelled (compression as a function parameter; chunk payloads compared after de-framing with the crate's own Chunk::decode)",
+                   "iteration orders of Instance.properties and of alias sets are parameters of the model, supplied from the implementation per case",
+                   "Color3 -> Color3uint8 channel quantisation is a parameter of the model (table observed per case)"]
+
+    def gen_cmds(self, seed, tier):
+        s = str(seed)
+        if tier == "quick":
+            return [["--seed", s, "--cases", "700"],
+                    ["--seed", s, "--cases", "250", "--unknown-only", "--prefix", "u"],
+                    ["--seed", s, "--cases", "300", "--same-class", "--max-nodes", "4", "--prefix", "s"]]
+        return [["--seed", s, "--cases", "12000"],
+                ["--seed", s, "--cases", "3000", "--unknown-only", "--prefix", "u"],
+                ["--seed", s, "--cases", "5000", "--same-class", "--max-nodes", "4", "--prefix", "s"],
+                ["--seed", s, "--cases", "300", "--max-nodes", "200", "--prefix", "L"]]
+
+    def known_key(self, pid, oracle_line, case_lines):
+        t = oracle_line.split(" ")
+        return t[2] if len(t) > 2 else None
+
+    def shrink_candidates(self, lines):
+        head, nodes, tail = _forest_nodes(lines)
+        labels = [n[0].split()[1] for n in nodes]
+        parents = [n[0].split()[2] for n in nodes]
+        # drop a leaf instance
+        for k in range(len(nodes) - 1, -1, -1):
+            if labels[k] in parents:
+                continue
+            t2 = []
+            for l in tail:
+                if l.startswith("roots"):
+                    t2.append(" ".join(["roots"] + [x for x in l.split()[1:] if x != labels[k]]))
+                else:
+                    t2.append(l)
+            yield head + [x for j, n in enumerate(nodes) if j != k for x in n] + t2
+        # drop one property
+        for k in range(len(nodes)):
+            n = nodes[k]
+            for j in range(len(n) - 1, 0, -1):
+                hd = n[0].split()
+                hd[5] = "%x" % (len(n) - 2)
+                n2 = [" ".join(hd)] + n[1:j] + n[j + 1:]
+                yield head + [x for i, m in enumerate(nodes) for x in (n2 if i == k else m)] + tail
+
+
+for _p in ("C01", "C07", "C08"):
+    REGISTRY[_p] = BinFile()
+
+
+class BinBytes(SimpleCorr):
+    """outcome-class (and decoded-DOM) correspondence of rbx_binary::from_reader with the Coq decoder model on mutated files;
+    used as a stage of C13 (instantiate and call run / or run_cases + disagreements)"""
+    kind = "binbytes"
+    model_args = ["real"]
+    rule = ("valid files written by rbx_binary (None / LZ4 / Zstd) mutated by bit flips, byte substitutions, 32-bit field edits (chunk header fields, "
+            "header counts, payload counts), chunk splicing (delete / duplicate / swap / foreign chunk / unknown name), random tails, and every "
+            "truncation offset of the smallest files; decoded by the implementation in a worker process (abort and hang observed) and by the "
+            "extracted Coq decoder model; compared: Ok + decoded DOM / Err class / panic. Where the model shows an input field requesting more "
+            "than 64 MiB (BIGALLOC) the implementation may also abort. distinct by bytes")
+    assumptions = ["lz4 / zstd inflation of the compressed chunks met by the chunk loop is taken from the crate (hints), not modelled",
+                   "allocations are compared by class only: the model marks a request above 64 MiB, the implementation may abort there"]
+
+    def gen_cmds(self, seed, tier):
+        if tier == "quick":
+            return [["--seed", str(seed), "--cases", "1500", "--all-prefixes", "2"]]
+        return [["--seed", str(seed), "--cases", "30000", "--all-prefixes", "12"]]
+
+    def known_key(self, pid, oracle_line, case_lines):
+        t = oracle_line.split(" ")
+        return t[2] if len(t) > 2 else None
+
+    def disagreements(self, blocks, impl, model):
+        out = []
+        for cid, lines in blocks:
+            io, mo = impl.get(cid, []), list(model.get(cid, []))
+            big = bool(mo) and mo[-1] == "BIGALLOC"
+            if big:
+                mo = mo[:-1]
+                continue_ok = True      # an input field asks for > 64 MiB: abort or any later outcome is possible
+                if continue_ok:
+                    continue
+            if io != mo:
+                k = 0
+                while k < min(len(io), len(mo)) and io[k] == mo[k]:
+                    k += 1
+                a = io[k] if k < len(io) else "<missing>"
+                b = mo[k] if k < len(mo) else "<missing>"
+                out.append((cid, k, "observation %d: implementation `%s` vs model `%s`" % (k, a[:160], b[:160])))
+        return out
+
+    def shrink_candidates(self, lines):
+        # byte strings: cut the tail, then zero bytes
+        for i, l in enumerate(lines):
+            if l.startswith("bytes "):
+                h = l.split()[1] if len(l.split()) > 1 else ""
+                if h == "-":
+                    return
+                n = len(h) // 2
+                for cut in (n // 2, n - 16, n - 1):
+                    if 0 < cut < n:
+                        yield lines[:i] + ["bytes " + h[:2 * cut]] + lines[i + 1:]
